@@ -67,8 +67,12 @@ def make(path, n, bs, q, rng=None, is2d=False, version=None, il=None, xl=None, z
     arrays = dict(sorted(arrays.items()))
     if dups and 181 in arrays:
         dupmap = {197: 181}
+    # the source-data hash field: a function of the samples alone (symbolic data: of the layout), as in real files --
+    # two files with the same samples and different headers carry the same hash
+    import hashlib
+    hashbytes = hashlib.sha1(repr((tuple(n), tuple(bs), q, bool(is2d), None if data is None else len(data))).encode()).digest()
     spec.build_file(path, lay, version, il=il, xl=xl, z=z, arrays=arrays, consts=consts, dups=dupmap, data=data,
-                    tracecount=tracecount, n_header_blocks=n_header_blocks)
+                    tracecount=tracecount, n_header_blocks=n_header_blocks, hashbytes=hashbytes)
     fi = readops.FileInfo(lay, il=il, xl=xl, z=z, tracecount=tracecount, mask=mask,
                           volume=lay.provenance_volume() if data is None else None,
                           arrays=arrays, consts=consts, dups=dupmap)
